@@ -893,6 +893,57 @@ func C06AddAliases(r *rand.Rand, root *YN, merges bool) (int, int) {
 	return na, nm
 }
 
+// C06RedefineAnchors gives a later anchored node the NAME of an earlier one when every alias of the earlier one
+// sits before the later definition: an alias binds to the most recent definition of its name before it, so the
+// value of the document does not change. Returns the number of names re-used.
+func C06RedefineAnchors(r *rand.Rand, root *YN) int {
+	pos := map[*YN]int{}
+	var order []*YN
+	root.Walk(func(n *YN, _ bool) {
+		pos[n] = len(order)
+		order = append(order, n)
+	})
+	var anchored []*YN
+	lastAlias := map[*YN]int{}
+	for i, n := range order {
+		if n.Anchor != "" {
+			anchored = append(anchored, n)
+		}
+		if n.Kind == YAlias && n.Target != nil {
+			lastAlias[n.Target] = i
+		}
+	}
+	done := 0
+	used := map[*YN]bool{}
+	for bi := 1; bi < len(anchored); bi++ {
+		b := anchored[bi]
+		if r.IntN(2) == 0 {
+			continue
+		}
+		for ai := 0; ai < bi; ai++ {
+			a := anchored[ai]
+			if used[a] || used[b] || a.Anchor == b.Anchor {
+				continue
+			}
+			// b must not lie inside a (an anchor cannot be redefined inside its own value) and a's aliases end before b
+			inside := false
+			a.Walk(func(x *YN, _ bool) {
+				if x == b {
+					inside = true
+				}
+			})
+			if inside || lastAlias[a] >= pos[b] {
+				continue
+			}
+			b.Anchor = a.Anchor
+			used[a], used[b] = true, true
+			done++
+			break
+		}
+	}
+	return done
+}
+
 // C06AddAliasKeys gives some later maps an extra entry whose KEY is an alias of an earlier, finished
 // scalar value (a single-line string or a decimal integer): `name: &n region` ... `{*n : 3}`.
 // Returns the number of alias keys added.
